@@ -14,6 +14,13 @@
 //! (c) `symindex managers=<M> …`: the one call site reachable offline — several `wholesym::SymbolManager`s
 //!     load the same local Breakpad `.sym` at once, which makes each of them create the `.symindex` through
 //!     `create_file_cleanly`.
+//! (d) `download fault=none|fsize:<N>|abort:<N> funcs=<F> tail=<T> size=<S> seed=<s>`: the other call site — a
+//!     `wholesym::SymbolManager` in a re-exec'd child downloads a Breakpad `.sym` from an HTTP server run by this
+//!     harness on 127.0.0.1 into a cache directory (`downloader.rs::download_to_file` owns the write callback
+//!     handed to `create_file_cleanly`). The body arrives in two pieces (the last `tail` bytes separately).
+//!     `fsize:<N>`: the child runs with RLIMIT_FSIZE = N (SIGXFSZ ignored), so the write that crosses byte N
+//!     fails with EFBIG — with N inside the last piece it is the LAST write of the download that fails;
+//!     `abort:<N>`: the server closes the connection after N body bytes. Then a fault-free retry.
 //!
 //! Output formats: see lean/SamplyModel/Iface/C16.lean.
 use std::collections::HashMap;
@@ -1400,11 +1407,218 @@ fn run_symindex(ws: &[&str], stats: &mut Stats) -> Vec<String> {
     ]
 }
 
+
+// ---------------------------------------------------------------------------------------------
+// (d) the download call site
+
+/// `--c16-download-child <base url> <cache dir> <name> <breakpad id> <fsize|->`: one `load_symbol_map` through
+/// a Breakpad symbol server; exit code 0 = loaded and a lookup succeeded, 1 = failed
+fn download_child_main(args: &[String]) -> ! {
+    let (url, cache, name, id) = (args[0].clone(), PathBuf::from(&args[1]), args[2].clone(), args[3].clone());
+    if let Ok(limit) = args[4].parse::<u64>() {
+        unsafe {
+            libc::signal(libc::SIGXFSZ, libc::SIG_IGN);
+            let lim = libc::rlimit { rlim_cur: limit, rlim_max: limit };
+            libc::setrlimit(libc::RLIMIT_FSIZE, &lim);
+        }
+    }
+    let debug_id = debugid::DebugId::from_breakpad(&id).expect("debug id");
+    let rt = tokio::runtime::Builder::new_current_thread().enable_all().build().unwrap();
+    let ok = rt.block_on(async move {
+        let config = wholesym::SymbolManagerConfig::new().breakpad_symbol_server(url, cache);
+        let sm = wholesym::SymbolManager::with_config(config);
+        match sm.load_symbol_map(&name, debug_id).await {
+            Ok(map) => map.lookup(wholesym::LookupAddress::Relative(0x1004)).await.is_some(),
+            Err(_) => false,
+        }
+    });
+    std::process::exit(if ok { 0 } else { 1 });
+}
+
+/// one-connection-at-a-time HTTP/1.1 server: any GET of a path ending in `.sym` gets `body` (first
+/// `body.len() - tail` bytes, a pause, then the rest); with `abort = Some(n)` the connection is closed after
+/// `n` body bytes although Content-Length announced all of them
+struct SymServer {
+    port: u16,
+    stop: Arc<AtomicBool>,
+    abort: Arc<Mutex<Option<usize>>>,
+    handle: Option<std::thread::JoinHandle<()>>,
+}
+
+impl SymServer {
+    fn start(body: Arc<Vec<u8>>, tail: usize) -> Option<SymServer> {
+        use std::io::Read;
+        let listener = std::net::TcpListener::bind("127.0.0.1:0").ok()?;
+        let port = listener.local_addr().ok()?.port();
+        listener.set_nonblocking(true).ok()?;
+        let stop = Arc::new(AtomicBool::new(false));
+        let abort = Arc::new(Mutex::new(None::<usize>));
+        let (stop2, abort2) = (stop.clone(), abort.clone());
+        let handle = std::thread::spawn(move || {
+            while !stop2.load(Ordering::SeqCst) {
+                let Ok((mut conn, _)) = listener.accept() else {
+                    std::thread::sleep(Duration::from_millis(2));
+                    continue;
+                };
+                let _ = conn.set_nonblocking(false);
+                let _ = conn.set_read_timeout(Some(Duration::from_secs(5)));
+                let mut req = Vec::new();
+                let mut buf = [0u8; 1024];
+                while !req.windows(4).any(|w| w == b"\r\n\r\n") {
+                    match conn.read(&mut buf) {
+                        Ok(0) | Err(_) => break,
+                        Ok(n) => req.extend_from_slice(&buf[..n]),
+                    }
+                }
+                let line = String::from_utf8_lossy(&req).lines().next().unwrap_or("").to_string();
+                let path = line.split_whitespace().nth(1).unwrap_or("");
+                if !line.starts_with("GET ") || !path.ends_with(".sym") {
+                    let _ = conn.write_all(b"HTTP/1.1 404 Not Found\r\nContent-Length: 0\r\nConnection: close\r\n\r\n");
+                    continue;
+                }
+                let head = format!("HTTP/1.1 200 OK\r\nContent-Type: text/plain\r\nContent-Length: {}\r\nConnection: close\r\n\r\n", body.len());
+                let _ = conn.write_all(head.as_bytes());
+                let cut = body.len().saturating_sub(tail);
+                match *abort2.lock().unwrap() {
+                    Some(n) => {
+                        let n = n.min(body.len());
+                        let _ = conn.write_all(&body[..n.min(cut)]);
+                        let _ = conn.flush();
+                        if n > cut {
+                            std::thread::sleep(Duration::from_millis(30));
+                            let _ = conn.write_all(&body[cut..n]);
+                        }
+                        // close with unsent bytes outstanding
+                        let _ = conn.shutdown(std::net::Shutdown::Both);
+                    }
+                    None => {
+                        let _ = conn.write_all(&body[..cut]);
+                        let _ = conn.flush();
+                        std::thread::sleep(Duration::from_millis(30));
+                        let _ = conn.write_all(&body[cut..]);
+                        let _ = conn.flush();
+                    }
+                }
+            }
+        });
+        Some(SymServer { port, stop, abort, handle: Some(handle) })
+    }
+}
+
+impl Drop for SymServer {
+    fn drop(&mut self) {
+        self.stop.store(true, Ordering::SeqCst);
+        if let Some(h) = self.handle.take() {
+            let _ = h.join();
+        }
+    }
+}
+
+fn run_download(ws: &[&str], stats: &mut Stats) -> Vec<String> {
+    let funcs = kv_num(ws, "funcs", 100);
+    let tail = kv_num(ws, "tail", 4096);
+    let seed = kv_num(ws, "seed", 1) as u64;
+    let fault = kv(ws, "fault").unwrap_or("none").to_string();
+    let dir = work_dir();
+    let name = "libverif.so";
+    let id_hex = format!("{:032X}0", (seed as u128).wrapping_mul(0x9E37_79B9_7F4A_7C15_F39C_C060_5CED_C835) | 1);
+    let debug_id = debugid::DebugId::from_breakpad(&id_hex).expect("debug id");
+    let text = sym_file_text(funcs, seed, &debug_id.breakpad().to_string(), name);
+    if kv_num(ws, "size", text.len()) != text.len() {
+        // the op line must state the size the generator computed (the model needs it)
+        let _ = std::fs::remove_dir_all(&dir);
+        return vec!["bad-op".into()];
+    }
+    let body = Arc::new(text.into_bytes());
+    let cache = dir.join("cache");
+    let rel = format!("{name}/{}/{name}.sym", debug_id.breakpad());
+    let dest = cache.join(&rel);
+    let Some(server) = SymServer::start(body.clone(), tail.min(body.len())) else {
+        let _ = std::fs::remove_dir_all(&dir);
+        return vec!["download err:server".into()];
+    };
+    let body2 = body.clone();
+    let observer = Observer::start(dest.clone(), move |p| match std::fs::read(p) {
+        Ok(b) => {
+            if b == *body2 {
+                Class::Complete(0)
+            } else {
+                Class::Bad
+            }
+        }
+        Err(_) => Class::Absent,
+    });
+    let exe = std::env::current_exe().unwrap();
+    let url = format!("http://127.0.0.1:{}/", server.port);
+    let run_child = |fsize: &str| -> &'static str {
+        let mut cmd = Command::new(&exe);
+        cmd.arg("--c16-download-child").arg(&url).arg(&cache).arg(name).arg(debug_id.breakpad().to_string()).arg(fsize);
+        for v in ["http_proxy", "https_proxy", "HTTP_PROXY", "HTTPS_PROXY", "all_proxy", "ALL_PROXY"] {
+            cmd.env_remove(v);
+        }
+        cmd.env("NO_PROXY", "127.0.0.1,localhost").env("no_proxy", "127.0.0.1,localhost");
+        cmd.stdin(Stdio::null()).stdout(Stdio::null()).stderr(Stdio::null());
+        match cmd.status() {
+            Ok(st) if st.code() == Some(0) => "ok",
+            Ok(st) if st.code() == Some(1) => "err",
+            Ok(_) => "crashed",
+            Err(_) => "err:spawn",
+        }
+    };
+    let classify = |p: &Path| -> String {
+        match std::fs::read(p) {
+            Ok(b) if b == *body => "complete".to_string(),
+            Ok(b) => format!("partial:{}", b.len()),
+            Err(_) => "absent".to_string(),
+        }
+    };
+    let fsize = fault.strip_prefix("fsize:").unwrap_or("-").to_string();
+    if let Some(n) = fault.strip_prefix("abort:").and_then(|n| n.parse::<usize>().ok()) {
+        *server.abort.lock().unwrap() = Some(n);
+    }
+    let first = run_child(&fsize);
+    let after_first = classify(&dest);
+    *server.abort.lock().unwrap() = None;
+    let retry = run_child("-");
+    let after_retry = classify(&dest);
+    let (n_obs, bad, _complete) = observer.finish();
+    drop(server);
+    stats.add("download_observations", n_obs);
+    stats.bump(&format!("download_fault_{}", fault.split(':').next().unwrap_or("?")));
+    stats.bump(&format!("download_first_{first}_{}", after_first.split(':').next().unwrap_or("?")));
+    let _ = std::fs::remove_dir_all(&dir);
+    vec![
+        format!("download child={first}"),
+        format!("observations bad={bad}"),
+        format!("final dest={after_first}"),
+        format!("retry child={retry} dest={after_retry}"),
+    ]
+}
+
 // ---------------------------------------------------------------------------------------------
 
 pub struct C16;
 
 const KILL_POINTS: [&str; 9] = ["flock", "stat", "openpart", "write1", "write2", "closepart", "rename", "closelock", "unlinklock"];
+
+/// the `download` op for a kind of fault, with the byte positions worked out from the generated `.sym` text
+fn download_line(what: &str, funcs: usize, tail: usize, seed: u64) -> String {
+    let id_hex = format!("{:032X}0", (seed as u128).wrapping_mul(0x9E37_79B9_7F4A_7C15_F39C_C060_5CED_C835) | 1);
+    let debug_id = debugid::DebugId::from_breakpad(&id_hex).expect("debug id");
+    let size = sym_file_text(funcs, seed, &debug_id.breakpad().to_string(), "libverif.so").len();
+    let tail = tail.min(size / 2).max(1);
+    let cut = size - tail;
+    let fault = match what {
+        "fsize-first" => format!("fsize:{}", cut / 2),
+        "fsize-last" => format!("fsize:{}", cut + tail / 2),
+        "fsize-lastbyte" => format!("fsize:{}", size - 1),
+        "fsize-exact" => format!("fsize:{size}"),
+        "abort-first" => format!("abort:{}", cut / 3),
+        "abort-last" => format!("abort:{}", cut + tail / 2),
+        _ => "none".to_string(),
+    };
+    format!("download fault={fault} funcs={funcs} tail={tail} size={size} seed={seed}")
+}
 
 fn round_line(mode: &str, n: usize, late: usize, cw: usize, fates: &[Fate], sizes: &[usize], pre: &str, presize: usize, lead: &str, seed: u64) -> String {
     let f = if fates.is_empty() { "-".to_string() } else { fates.iter().map(|f| f.show()).collect::<Vec<_>>().join(",") };
@@ -1477,6 +1691,11 @@ impl Prop for C16 {
         for (m, f) in [(2usize, 50usize), (6, 400)] {
             push(format!("symindex-{m}"), format!("symindex managers={m} funcs={f} seed={}", next_seed()));
         }
+        // (d) the download call site: fault-free, write error in the first piece, inside the LAST piece (one
+        // byte short of the whole file included), exactly at the end (no error), connection lost early / late
+        for (k, what) in ["none", "fsize-first", "fsize-last", "fsize-lastbyte", "fsize-exact", "abort-first", "abort-last"].iter().enumerate() {
+            push(format!("download-{what}"), download_line(what, 300 + 40 * k, 2048, next_seed()));
+        }
         v
     }
     fn generate(&self, rng: &mut Rng, tier: Tier, index: u64) -> Vec<String> {
@@ -1484,6 +1703,10 @@ impl Prop for C16 {
         if rng.chance(1, 25) {
             let m = rng.range(2, 8);
             return vec![format!("symindex managers={m} funcs={} seed={seed}", rng.range(1, 600))];
+        }
+        if rng.chance(1, 30) {
+            let what = *rng.pick(&["none", "fsize-first", "fsize-last", "fsize-last", "fsize-lastbyte", "fsize-exact", "abort-first", "abort-last"]);
+            return vec![download_line(what, rng.range(20, 900) as usize, rng.range(1, 5000) as usize, seed)];
         }
         let procs = rng.chance(2, 5);
         let mode = if procs { "procs" } else { "threads" };
@@ -1553,6 +1776,7 @@ impl C16 {
             Some("trace") => run_trace(&ws, stats),
             Some("round") => run_round(&ws, stats),
             Some("symindex") => run_symindex(&ws, stats),
+            Some("download") => run_download(&ws, stats),
             _ => vec!["bad-op".into()],
         }
     }
@@ -1562,6 +1786,9 @@ fn main() {
     let args: Vec<String> = std::env::args().collect();
     if args.get(1).map(|s| s.as_str()) == Some("--c16-child") {
         child_main(&args[2..]);
+    }
+    if args.get(1).map(|s| s.as_str()) == Some("--c16-download-child") {
+        download_child_main(&args[2..]);
     }
     verif_harness::runner::run_main(&C16);
 }
